@@ -12,9 +12,9 @@ import (
 	"cuelabs.dev/go/oci/ociregistry/ociclient"
 	"cuelabs.dev/go/oci/ociregistry/ocidebug"
 	"cuelabs.dev/go/oci/ociregistry/ocifilter"
-	"cuelabs.dev/go/oci/ociregistry/ociunify"
 	"cuelabs.dev/go/oci/ociregistry/ocimem"
 	"cuelabs.dev/go/oci/ociregistry/ociserver"
+	"cuelabs.dev/go/oci/ociregistry/ociunify"
 
 	"verifsim/core"
 	"verifsim/reg"
